@@ -7,3 +7,5 @@ import SfModel.Handle
 import SfModel.Chunk
 import SfModel.Adpcm
 import SfModel.AdpcmSpec
+import SfModel.FormatCheck
+import SfModel.Generated.FormatLists
